@@ -321,6 +321,11 @@ def run(run_, tier):
     check_implicit_leapfrog(run_, it)
     check_implicit_midpoint(run_, it)
     check_constrained(run_, it)
+    # the sub-steps composed by the implicit schemes must be the (implicit / explicit) Euler maps of the system's own derivative functions,
+    # for every compatible system class: the sub-step contracts of C02, imported
+    from . import c02
+    c02.check_leapfrog_pairs(run_, it)
+    c02.check_midpoint_pair(run_, it)
     # "for the system's own Hamiltonian": the flows composed above are generated by dh1_dpos / dh2_dmom / dh2_dpos, which must be the
     # gradients of the system's h1 / h2 (C05 obligations, imported), and h2_flow must be the exact flow (C07 obligations, imported)
     from . import symla_systems
